@@ -23,6 +23,7 @@ type Input struct {
 	MapKeys string  `json:"mapkeys,omitempty"` // col | name
 	NoMMap  bool    `json:"nommap,omitempty"`  // skip the Model(&T{}).Take(&map) read (types with serializer fields: known finding)
 	Spec    []GField `json:"spec,omitempty"` // run-time generated struct type (reflect.StructOf); Type = "gen_<n>"
+	XRecs   [][]Val `json:"xrecs,omitempty"` // values of struct leaves that gorm mapped to no column (normally none)
 	Recs    [][]Val `json:"recs"` // canonical values per record, in column (DBNames) order
 }
 
@@ -33,6 +34,7 @@ type Obs struct {
 	Rows     [][]Val   `json:"rows"`      // row storing record i (by marker), canonical db values; nil if none
 	RowCount int64     `json:"row_count"` // rows carrying one of the case's markers
 	Find     [][]Val   `json:"find"`
+	XFind    [][]Val   `json:"xfind"` // the unmapped leaves as read back by Find
 	First    [][]Val   `json:"first"`
 	Take     [][]Val   `json:"take"`
 	MMap     [][]Val   `json:"mmap"` // Model(&T{}).Take(&map)
@@ -110,6 +112,7 @@ func run(in Input) (o Obs) {
 			for i, r := range in.Recs {
 				rec := reflect.New(d.t)
 				d.buildRec(rec, r)
+				d.buildExtra(rec, xrec(in, i))
 				if err := db.Create(rec.Interface()).Error; err != nil && o.Err == "" {
 					o.Err = err.Error()
 				}
@@ -120,6 +123,7 @@ func run(in Input) (o Obs) {
 			sl.Elem().Set(reflect.MakeSlice(reflect.SliceOf(d.t), n, n))
 			for i, r := range in.Recs {
 				d.buildRec(sl.Elem().Index(i), r)
+				d.buildExtra(sl.Elem().Index(i), xrec(in, i))
 			}
 			if in.Op == "slice" {
 				err = db.Create(sl.Interface()).Error
@@ -139,6 +143,7 @@ func run(in Input) (o Obs) {
 			for i, r := range in.Recs {
 				rec := reflect.New(d.t)
 				d.buildRec(rec, r)
+				d.buildExtra(rec, xrec(in, i))
 				sl.Elem().Index(i).Set(rec)
 			}
 			if err := db.Create(sl.Interface()).Error; err != nil {
@@ -203,6 +208,7 @@ func run(in Input) (o Obs) {
 			}
 		}
 		o.Rows, o.Find, o.First, o.Take, o.MMap, o.TMap = empty(n), empty(n), empty(n), empty(n), empty(n), empty(n)
+		o.XFind = empty(n)
 		return o
 	}
 
@@ -252,6 +258,7 @@ func run(in Input) (o Obs) {
 		}
 	}
 	o.Find, o.First, o.Take, o.MMap, o.TMap = empty(n), empty(n), empty(n), empty(n), empty(n)
+	o.XFind = empty(n)
 	all := reflect.New(reflect.SliceOf(d.t))
 	rerr("find", db.Find(all.Interface()).Error)
 	for k := 0; k < all.Elem().Len(); k++ {
@@ -259,6 +266,9 @@ func run(in Input) (o Obs) {
 		for i, m := range marks {
 			if c[mi].S == m && len(o.Find[i]) == 0 {
 				o.Find[i] = c
+				if len(xrec(in, i)) > 0 {
+					o.XFind[i] = d.canonExtra(all.Elem().Index(k))
+				}
 			}
 		}
 	}
@@ -367,4 +377,11 @@ func untyped(d *Desc, row []Val) []Val {
 		}
 	}
 	return row
+}
+
+func xrec(in Input, i int) []Val {
+	if i < len(in.XRecs) {
+		return in.XRecs[i]
+	}
+	return nil
 }
